@@ -26,11 +26,12 @@ def classes(texts):
 def header(texts, fuel=400):
     xd, xdec, xa, xl = classes(texts)
     return '''From Coq Require Import List NArith ZArith Arith Bool.
-From PG Require Import Common.Strs Ring.Peg Ring.PegCorr Ring.Reader Graph.Mol Graph.Match Gen.RingGrammar Gen.Elements.
+From PG Require Import Common.Strs Ring.Peg Ring.PegCorr Ring.Peg_cert Ring.Reader Graph.Mol Graph.Match Gen.RingGrammar Gen.Elements.
 Import ListNotations.
-Definition P := parse_text %s %s %s enhanced_grammar_rules enhanced_grammar_root %d.
-Definition R := read_text %s %s %s %s enhanced_grammar_rules enhanced_grammar_root elements %d.
-''' % (xd, xdec, xa, fuel, xd, xdec, xa, xl, fuel)
+(* fuel = the bound of theorem C09_parse_total: the model never runs out of fuel *)
+Definition P (t : str) := parse_text %s %s %s enhanced_grammar_rules enhanced_grammar_root (fuel_bound t) t.
+Definition R (t : str) := read_text %s %s %s %s enhanced_grammar_rules enhanced_grammar_root elements (fuel_bound t) t.
+''' % (xd, xdec, xa, xd, xdec, xa, xl)
 
 
 def tree_lit(t):
